@@ -121,7 +121,9 @@ namespace opensmt {
             is_neg = true;
         }
 
+        bool sawDigit = false;
         for (int i = 0; flo[i] != '\0'; i++) {
+            if (isDigit(flo[i])) { sawDigit = true; }
             if (state == 0 && flo[i] == '0') {}
             else if (state == 0 && isPosDig(flo[i])) {
                 nom_l++;
@@ -159,6 +161,8 @@ namespace opensmt {
             else if (state == 5 && isDigit(flo[i])) { state = 5; }
             else { throw strConvException(flo); }
         }
+
+        if (not sawDigit) { throw strConvException(flo); } // "", "-", "." are not numbers
 
         if (is_frac) {
             // Both sides of the fraction need a digit and the denominator must not be zero
